@@ -8,6 +8,7 @@ from harness.graph_meta import *  # noqa
 def harnesses(tier):
     if tier == 'quick':
         return [
+            {'name': 'earlier-link-view-N3', 'fn': graph.h_stale_link_view, 'cfg': {'N': 3, 'nW': 0, 'flat': True, 'props': ['C01'], 'ops1': ['set_preds', 'set_succs', 'pred_append', 'succ_append', 'pred_remove']}},
             {'name': 'earlier-view-N2', 'fn': graph.h_stale_view, 'cfg': {'N': 2, 'nW': 1, 'props': ['C01'], 'ops1': ['ch_remove', 'wbs_remove', 'set_parent'], 'ops2': ['ch_sort', 'ch_reorder', 'ch_insert', 'ch_move', 'ch_remove']}},
             {'name': 'step-N3-W1', 'fn': graph.h_step,
              'cfg': {'prop': 'C01', 'N': 3, 'nW': 1, 'seqlen': 2, 'ops': graph.ALL_OPS}},
@@ -18,6 +19,7 @@ def harnesses(tier):
             {'name': 'generator-validation-N3-W2', 'fn': graph.h_generator, 'cfg': {'N': 3, 'nW': 2}},
         ]
     return [
+        {'name': 'earlier-link-view-N3-W1', 'fn': graph.h_stale_link_view, 'cfg': {'N': 3, 'nW': 1, 'props': ['C01'], 'ops1': ['set_preds', 'set_succs', 'pred_append', 'succ_append', 'pred_remove', 'succ_remove', 'lshift', 'rshift']}},
         {'name': 'earlier-view-N3', 'fn': graph.h_stale_view, 'cfg': {'N': 3, 'nW': 1, 'props': ['C01'], 'ops1': ['ch_remove', 'wbs_remove', 'set_parent'], 'ops2': ['ch_sort', 'ch_reorder', 'ch_insert', 'ch_move', 'ch_remove']}},
         {'name': 'step-N3-W2', 'fn': graph.h_step,
          'cfg': {'prop': 'C01', 'N': 3, 'nW': 2, 'seqlen': 3, 'ops': graph.ALL_OPS}},
